@@ -227,7 +227,7 @@ class Ctx:
                    out.split(k + ':')[1].strip().split('\n')[0].strip() != '<none>'] if all(k + ':' in out for k in ('type-in-type', 'unsafe (co)fixpoints', 'positivity is assumed')) else []
             ok = not bad
         self.obligation(f'coqchk:{module}', ok, 'proof', out[-1500:] if not ok else '')
-        self.extra['coqchk'] = {'module': module, 'seconds': round(time.time() - t, 1), 'axioms': axioms}
+        self.extra.setdefault('coqchk', {})[module] = {'seconds': round(time.time() - t, 1), 'axioms': axioms}
         for a in axioms:
             self.axioms.add(a.split(':')[0].strip())
         return ok
